@@ -5,11 +5,12 @@
    already collected for that property (place/kind only). Nothing else from /verif."""
 import json, sys, glob, os
 pid, wt = sys.argv[1], sys.argv[2]
+kind = sys.argv[3] if len(sys.argv) > 3 else ""
 prop = next(json.loads(l) for l in open('/verif/properties.jsonl') if json.loads(l)['id'] == pid)
 used = []
 for m in sorted(glob.glob('/verif/seeded/%s_*/meta.json' % pid)):
     j = json.load(open(m)); used.append("- %s: %s" % (", ".join(j.get("files_touched", [])), j.get("needs_to_manifest", "")))
-print("""You are helping to test a verification suite for the C++ project SciCompMod/GMGPolar (an OpenMP geometric multigrid solver on polar/curvilinear grids). Your own private scratch git worktree of the project is at /tmp/wt_%(wt)s (already configured and built: /tmp/wt_%(wt)s/_build, Ninja, `cmake --build _build -j8`, tests run with `ctest --test-dir _build -j8 --timeout 900`; 16 ctest executables / 173 gtest cases, all passing now). Work ONLY inside /tmp/wt_%(wt)s. Never read or touch /repo, /verif or any other /tmp/wt_* directory. There is no network.
+print("""You are helping to test a verification suite for the C++ project SciCompMod/GMGPolar (an OpenMP geometric multigrid solver on polar/curvilinear grids). Your own private scratch git worktree of the project is at /tmp/wt_%(wt)s (already configured and built: /tmp/wt_%(wt)s/_build, Ninja, `cmake --build _build -j8`, tests run with `OMP_WAIT_POLICY=passive ctest --test-dir _build -j8 --timeout 900` - always set OMP_WAIT_POLICY=passive, the machine is shared and spin-waiting OpenMP tests time out otherwise; 16 ctest executables / 173 gtest cases, all passing now). Work ONLY inside /tmp/wt_%(wt)s. Never read or touch /repo, /verif or any other /tmp/wt_* directory. There is no network.
 
 Here is one semantic property of the project that is supposed to hold (JSON record):
 
@@ -20,11 +21,11 @@ TASK: write ONE small, realistic change to the project's source (src/ or include
  (b) the complete existing test suite still passes (all ctest executables), and
  (c) the breakage needs something SPECIFIC to manifest: a particular multi-step sequence of API calls, an unusual-but-legal input (grid shape, size, option combination, thread count, value range), a particular interleaving, or two cooperating edits that each look fine alone. It must NOT be something ordinary use with default options exposes at once, and it should look like a plausible refactoring/optimisation/bug a maintainer could commit by accident, not like sabotage (no magic constants, no "if (n == 37)").
 Read the code the property is anchored in first, understand what the existing tests exercise (tests/), and choose a place they do not reach.
-%(used)s
+%(kind)s%(used)s
 DELIVERABLES, all inside /tmp/wt_%(wt)s:
  1. patch.diff at the worktree root: `git diff -- src include > patch.diff` (must apply with `git apply` to a clean checkout; only src/ and include/).
  2. demo/demo.cpp + demo/build.sh: a small stand-alone program (link against _build/libGMGPolarLib.a _build/libInputFunctions.a _build/libPolarGrid.a as needed, `g++ -std=gnu++20 -O2 -fopenmp -I/tmp/wt_%(wt)s/include`; build.sh must produce the executable demo/demo) that demonstrates the violation of the property through public interfaces: it exits 0 and prints PASS on the ORIGINAL code and exits non-zero and prints FAIL with your change applied. The demo must be deterministic (if it depends on a thread interleaving, make it robust, e.g. by a ThreadSanitizer build or by repeating until it shows, and say so).
  3. SEEDED.md: what you changed, which sentence of the property it breaks, the exact trigger (everything that is needed for it to manifest), why the existing tests do not notice, and the commands you ran with their abridged output (build, ctest summary with the change, demo with and without the change).
-Verify everything yourself: apply the change, rebuild (`cmake --build _build -j8`), run the full ctest (must be 100%% passed), build and run the demo (FAIL); then `git checkout -- src include`, rebuild, rebuild the demo, run it (PASS). Leave the worktree with patch.diff present and the source tree CLEAN (change not applied) and _build rebuilt for the clean tree. Keep builds to `-j8`. In your final answer give a five-line summary: files touched, what breaks, trigger, ctest result with the change, demo results with/without.""" % dict(
-    wt=wt, prop=json.dumps(prop, indent=1),
+Verify everything yourself: apply the change, rebuild (`cmake --build _build -j8`), run the full ctest with OMP_WAIT_POLICY=passive (must be 100%% passed), build and run the demo (FAIL); then `git checkout -- src include`, rebuild, rebuild the demo, run it (PASS). Leave the worktree with patch.diff present and the source tree CLEAN (change not applied) and _build rebuilt for the clean tree. Keep builds to `-j8`. In your final answer give a five-line summary: files touched, what breaks, trigger, ctest result with the change, demo results with/without.""" % dict(
+    wt=wt, prop=json.dumps(prop, indent=1), kind=("If the code allows it, prefer a trigger of this kind: " + kind + "\n") if kind else "",
     used=("\nChanges of the following kinds/places have ALREADY been collected for this property; choose a DIFFERENT place and a different kind of trigger:\n" + "\n".join(used) + "\n") if used else ""))
